@@ -295,6 +295,9 @@ class MultiTierCache(Entity):
 
         # Promote to L1 (synchronously, no yield)
         target_tier = self._tiers[0]
+        if hasattr(target_tier, "contains_cached") and target_tier.contains_cached(key):
+            # Written while the lower-tier read was in flight: that entry is newer
+            return
         if hasattr(target_tier, "_cache_put"):
             target_tier._cache_put(key, value)
             self._promotions += 1
@@ -304,6 +307,9 @@ class MultiTierCache(Entity):
         # For new values, cache in L1
         if self._tiers:
             target_tier = self._tiers[0]
+            if hasattr(target_tier, "contains_cached") and target_tier.contains_cached(key):
+                # Written while the fetch was in flight: that entry is newer
+                return
             if hasattr(target_tier, "_cache_put"):
                 target_tier._cache_put(key, value)
 
